@@ -158,7 +158,6 @@ func (p *Program) axiomTerms(x *Exec) []*T {
 	return out
 }
 
-
 // specDefAxioms returns the defining equations of the `specdef` functions:
 // forall params. f(params) == body, with f(params) as trigger.
 func (p *Program) specDefAxioms(x *Exec) []*T {
